@@ -1,13 +1,19 @@
 SPECIFICATION Spec
 CONSTANTS
-  Reqs = {1, 2, 3, 4}
+  Reqs = {1, 2, 3}
   MaxGens = 4
   MaxClients = 3
-  MaxFaults = 2
+  MaxFaults = 3
   MaxStalls = 0
   MaxAsk = 0
   AskSelectsQuit = TRUE
   ResetStopsUnderLock = FALSE
+  Counters = FALSE
+  MaxCollects = 0
+  MaxCfg = 0
+  FreeDestroys = FALSE
+  FreeHoldsCounterLock = FALSE
+  UpdateLosesDefaults = FALSE
   FixCallEntry = TRUE
   FixResetSnapshot = TRUE
   FixRemoveOwn = TRUE
